@@ -9,6 +9,8 @@ Defects (net["defects"] lists what was injected, net["blunders"] the expected ab
   one_element   a point without coordinates determined by a single distance / direction
   single_dir    a station left with a single direction (distances stay)
   dup_dir       a station whose only directions go to one and the same target (twice)
+  single_dir_passive  a station with one direction to a usable target and one to a target that is not usable (unknown
+                id / point without coordinates): the passive direction's target must not count as a second target
   unknown_to    an observation to an id that is not a point of the network
   angle_fs_missing  an angle whose foresight (or backsight) target has no coordinates
   blunder       observation value shifted so that the positional misclosure is f*tol_abs
@@ -113,7 +115,8 @@ def make_case(rng, acord=True, dim=None, want=None):
                 it["stdev"] = rng.choice(STDEVS)
     ids = list(net["points"])
     defects = want if want is not None else rng.sample(
-        ["isolated", "one_element", "single_dir", "dup_dir", "unknown_to", "angle_fs_missing", "blunder", "blunder", "blunder2", "blunder_w"],
+        ["isolated", "one_element", "single_dir", "dup_dir", "single_dir_passive", "unknown_to", "angle_fs_missing", "blunder", "blunder",
+         "blunder2", "blunder_w"],
         rng.randint(0, 3))
     for d in defects:
         if d == "isolated":
@@ -160,6 +163,24 @@ def make_case(rng, acord=True, dim=None, want=None):
             if d == "dup_dir":
                 st["items"].append(dict(keep))
             net["defects"].append((d, st["from"]))
+        elif d == "single_dir_passive":
+            cands = [st for st in station_items(net) if sum(1 for it in st["items"] if it["t"] == "direction") >= 2
+                     and not any(it.get("blunder") for it in st["items"])]
+            if not cands:
+                continue
+            st = rng.choice(cands)
+            keep = rng.choice([it for it in st["items"] if it["t"] == "direction"])
+            st["items"] = [it for it in st["items"] if it["t"] != "direction" or it is keep]
+            if rng.random() < 0.5:
+                tgt = "NOPOINT"
+            else:
+                tgt = f"W{len(net['points'])}"
+                p = {"x": 55.5, "y": 44.4, "status": "adj", "approx": False}
+                if dim == 3:
+                    p["z"] = 12.0
+                net["points"][tgt] = p
+            st["items"].insert(rng.randint(0, len(st["items"])), {"t": "direction", "to": tgt, "val": rng.uniform(0, 400), "stdev": 10})
+            net["defects"].append(("single_dir_passive", st["from"], tgt))
         elif d == "unknown_to":
             st = rng.choice(list(station_items(net)))
             st["items"].append({"t": "distance", "to": "NOPOINT", "val": 100.0, "stdev": 10})
@@ -240,6 +261,12 @@ def add_correlations(rng, net, every=False):
             continue
         if not every and rng.random() < 0.4:
             continue
+        if o["kind"] == "obs":
+            # forward substitution carries a gross term to the LATER rows of its block (C14-F1 again: an angular
+            # observation there is judged by the homogenised entry): blundered rows go last
+            rng.shuffle(o["items"])       # an excluded row anywhere in the block, not only at its end
+            o["items"].sort(key=lambda it: it.get("blunder") is not None)
+            sd = cluster_rows(o)
         n = len(sd)
         band = min(n - 1, rng.choice([1, 1, 2, 3, n - 1]))
         cov = [[0.0] * n for _ in range(n)]
@@ -251,6 +278,17 @@ def add_correlations(rng, net, every=False):
                     cov[i][i + k] = cov[i + k][i] = r * sd[i] * sd[i + k]
         o["cov"], o["band"] = cov, band
         n_corr += 1
+        # the generated observations are consistent, so the adjusted values would not depend on the weights at all:
+        # disturb the linear observations of the block (misclosure at most 0.2*tol-abs; blundered rows keep theirs)
+        tol = float(net["params"]["tol-abs"])
+        for it in o["items"]:
+            if it.get("blunder") is not None:
+                continue
+            if o["kind"] == "obs" and it["t"] in ("distance", "s-distance") or o["kind"] == "hdiffs":
+                it["val"] += rng.uniform(-0.2, 0.2) * tol / 1000.0
+            elif o["kind"] == "vectors":
+                for c in ("dx", "dy", "dz"):
+                    it[c] += rng.uniform(-0.2, 0.2) * tol / 1000.0
     if n_corr:
         net.setdefault("defects", []).append(("corr", n_corr))
     return n_corr
